@@ -18,7 +18,30 @@ fn gen_themed(src: &mut Src, tier: Tier) -> Case {
     let mut cfg = GenCfg::full(fl, alpha.clone());
     cfg.max_depth = 3;
     let a = |src: &mut Src, cfg: &GenCfg| Node::Lit(gen_char(src, cfg));
-    let node = match src.below(8) {
+    let node = match src.below(10) {
+        8 => {
+            // lookbehind holding a long literal (crosses the 16-byte chunk limit) or an icase string set,
+            // with a nested lookaround somewhere inside it
+            let n = *src.pick(&[3u32, 9, 16, 17, 18, 26, 33]);
+            let lit = Node::Cat((0..n).map(|_| a(src, &cfg)).collect());
+            let inner = Node::Look { behind: src.chance(1, 2), neg: src.chance(1, 3), body: Box::new(gen_node(src, &cfg, 3)) };
+            let mut parts = vec![lit, inner, gen_node(src, &cfg, 3)];
+            if src.chance(1, 2) {
+                parts.swap(0, 1);
+            }
+            if src.chance(1, 2) {
+                parts.rotate_left(1);
+            }
+            Node::Cat(vec![gen_node(src, &cfg, 3), Node::Look { behind: true, neg: false, body: Box::new(Node::Cat(parts)) }, gen_node(src, &cfg, 3)])
+        }
+        9 => {
+            // v-mode string sets inside lookbehind / under i, next to lookarounds
+            let strs: Vec<Vec<u32>> = (0..1 + src.below(3)).map(|_| (0..1 + src.below(4)).map(|_| gen_char(src, &cfg)).collect()).collect();
+            let set = if fl.mode == Mode::V { Node::ClassSet(Cs { neg: false, kind: CsKind::Union, ops: vec![CsOp::Q(strs)] }) } else { Node::Alt(strs.iter().map(|s| Node::Cat(s.iter().map(|c| Node::Lit(*c)).collect())).collect()) };
+            let inner = Node::Look { behind: src.chance(1, 2), neg: src.chance(1, 3), body: Box::new(a(src, &cfg)) };
+            let parts = if src.chance(1, 2) { vec![set, inner, a(src, &cfg)] } else { vec![a(src, &cfg), inner, set] };
+            Node::Cat(vec![gen_node(src, &cfg, 3), Node::Look { behind: true, neg: src.chance(1, 4), body: Box::new(Node::Cat(parts)) }, gen_node(src, &cfg, 3)])
+        }
         0 => {
             // nested quantifiers over empty-matchable bodies with min >= 1
             let inner = Node::Quant { body: Box::new(gen_node(src, &cfg, 2)), min: 0, max: Some(1 + src.below(2)), lazy: src.chance(1, 2), braces: false };
